@@ -218,10 +218,10 @@ fn c01_indent_huge_width() {
 // C16 (narrow): whatever JSON text the serializer produces, `tojson` hands out a safe string that contains
 // none of < > & ' and from which the serializer's text is recovered by undoing the four \u00XX escapes.
 // The serializer itself (serde_json + `Serialize for Value`, whose thread-locals kani-compiler 0.68 cannot
-// translate) is replaced by a model that returns an ARBITRARY ASCII text of up to 3 bytes.
+// translate) is replaced by a model that returns an ARBITRARY ASCII text of up to 2 bytes.
 // ---------------------------------------------------------------------------
 #[cfg(feature = "json")]
-pub(crate) static mut C16_JSON: [u8; 3] = [0; 3];
+pub(crate) static mut C16_JSON: [u8; 2] = [0; 2];
 #[cfg(feature = "json")]
 pub(crate) static mut C16_JSON_LEN: usize = 0;
 
@@ -242,20 +242,21 @@ fn is_html_meta(b: u8) -> bool {
 
 #[cfg(feature = "json")]
 // @verif props=C16 tier=quick cap=900 group=json fns=filters::tojson stubs=serialize_json->arbitrary_text
-/// For EVERY serializer output of up to 3 ASCII bytes: the value `tojson` returns is marked safe, contains none
+/// For EVERY serializer output of up to 2 ASCII bytes: the value `tojson` returns is marked safe, contains none
 /// of the characters < > & ', and is the serializer's text with exactly those four characters replaced by
 /// their six-byte \u00XX escapes (every other byte unchanged, in order).
 #[kani::proof]
-#[kani::unwind(22)]
+#[kani::unwind(15)]
 #[kani::stub(std::hash::RandomState::new, crate::verif_common::random_state_stub)]
 #[kani::stub(alloc::fmt::format, crate::verif_common::format_stub)]
+#[kani::stub(alloc::sync::Arc::drop_slow, crate::verif_common::arc_drop_slow_leak)]
 #[kani::stub(crate::filters::builtins::serialize_json, serialize_json_model)]
 fn c16_tojson_output_is_html_safe() {
     let len: usize = kani::any();
-    kani::assume(len <= 3);
+    kani::assume(len <= 2);
     let mut i = 0;
     let mut metas = 0;
-    while i < 3 {
+    while i < 2 {
         let c: u8 = kani::any();
         kani::assume(c < 0x80);
         unsafe {
@@ -307,8 +308,8 @@ fn c16_tojson_output_is_html_safe() {
         }
         Err(_) => assert!(false),
     }
-    kani::cover!(len == 3 && metas == 3);
-    kani::cover!(len == 3 && metas == 0);
+    kani::cover!(len == 2 && metas == 2);
+    kani::cover!(len == 2 && metas == 0);
     core::mem::forget(r);
 }
 
